@@ -67,7 +67,7 @@ def plan(pid, tier):
         "C01": dict(mc=[inst_c01(5 if q else 7)], drivers=[("fuzz", 400 if q else 30000, [])]),
         "C03": dict(mc=[inst_kernels(1, lines="RunOnly")], drivers=[("progs", 80 if q else 4000, [])]),
         "C04": dict(mc=[inst_c04(4 if q else 5)], drivers=[]),
-        "C07": dict(mc=[inst_kernels(3 if q else 4, lines="BreakLines")], drivers=[("breakcont", 60 if q else 3000, [])]),
+        "C07": dict(mc=[inst_kernels(3 if q else 4, lines="BreakLines")], drivers=[("breakcont", 60 if q else 3000, []), ("stopassign", 120 if q else 4000, [])]),
         "C08": dict(mc=[inst_kernels(2 if q else 3, lines="BreakLines", kernels="InputKernels")],
                     drivers=[("inputassign", 150 if q else 6000, []), ("progs", 40 if q else 1500, ["input"])]),
         "C09": dict(mc=[inst_kernels(1, trace=True, lines="RunOnly")], drivers=[("progs", 80 if q else 3000, ["trace", "input"])]),
